@@ -510,6 +510,32 @@ def run_cliprompt(spec, tier, seed, res):
                     res.violation(f'C11|{itype}|cli-accepted-invalid-answer', f'{itype}: after answers {bad + [good]} the file holds {got!r}', {'itype': itype, 'script': bad + [good]})
                 elif retries < len(bad):
                     res.violation(f'C11|{itype}|cli-accepted-invalid-answer', f'{itype}: only {retries} re-asks for {len(bad)} invalid answers {bad}; stored {got!r}', {'itype': itype, 'script': bad + [good]})
+            # rejected answers followed by Ctrl-C: the rejected text must not be handed on as an answer
+            with tempfile.TemporaryDirectory() as d:
+                path = os.path.join(d, 'in.ini')
+                script2 = list(bad[:2])
+
+                def inp3(prompt):
+                    m = re.search(r'----\[ c11\.(\w+) \]', prompt)
+                    cur = m.group(1) if m else inp3.cur
+                    inp3.cur = cur
+                    if cur == itype:
+                        if script2:
+                            return script2.pop(0)
+                        raise KeyboardInterrupt()
+                    return valid_first[cur]
+                inp3.cur = None
+                r = cli.run_cli(['solve', path, '--year', '2099', '--form', 'c11', '--prompt-missing', '--writeback-input'], input_fn=inp3)
+                res.evaluations += 1
+                res.count('cli_prompt_sessions')
+                cp = drive.config_from(text=open(path).read()) if os.path.exists(path) else drive.config_from({})
+                got = cp.get('c11', itype, raw=True) if cp.has_option('c11', itype) else None
+                res.distinct.add(f'cli-int|{itype}')
+                if r.exc is not None:
+                    res.violation(f'C11|{itype}|cli-rejected-answer-then-interrupt-crashes', f'{itype}: answers {bad[:2]} (rejected) then Ctrl-C: the CLI raised {type(r.exc).__name__}: {str(r.exc)[:80]} '
+                                  f'instead of treating the input as not supplied', {'itype': itype, 'script': bad[:2] + ['<Ctrl-C>']})
+                elif got is not None:
+                    res.violation(f'C11|{itype}|cli-rejected-answer-stored', f'{itype}: answers {bad[:2]} (rejected) then Ctrl-C: the file holds {got!r}', {'itype': itype, 'script': bad[:2] + ['<Ctrl-C>']})
     finally:
         del hx.hforms.available_forms[2099]
     return res
